@@ -174,6 +174,9 @@ class C03(PropertyCheck):
         "QipVerif.C03.pauli_X_sound",
         "QipVerif.C03.pauli_Y_sound",
         "QipVerif.C03.pauli_Z_sound",
+        "QipVerif.C03.resolve_den_partial",
+        "QipVerif.C03.resolve_den_unrestricted_counterexample",
+        "QipVerif.C03.phasegate_odd_counterexample",
     ]
     technique = ("Lean 4: rule tables regenerated from the source, each rule's exact unitary identity decided by the kernel "
                  "in Z[zeta16][1/2] (decide +kernel); parametric rules proved over C for all angles; list-level theorems on "
